@@ -67,6 +67,14 @@ Section Cases.
         | Some w => SL [SN (select w (fin_ F u))]
         | _ => bad end
       | _ => bad end
+    else if String.eqb cmd "selects" then
+      (* one distribution, many canonical numbers *)
+      match args with
+      | [ws; us] =>
+        match dLof (dF F) ws, dLof (dF F) us with
+        | Some w, Some u => let cum := cumulative w in SL (map (fun x => SN (upper_bound cum x)) u)
+        | _, _ => bad end
+      | _ => bad end
     else if String.eqb cmd "kahan" then
       match args with
       | [vs] =>
